@@ -509,7 +509,8 @@ def compute_d_factal(x, k=10, n=500, seed=432):
     Parameters
     ----------
     x : array-like
-        The training instances. Shape must be (n_samples, n_features).
+        The training instances. Shape must be (n_samples, n_features) or (n_samples,)
+        for a single feature (the dimensionality of single-feature data is 1).
     k : int, optional
         Number of nearest neighbors to use in the algorithm.
         Defaults to 10.
@@ -530,7 +531,8 @@ def compute_d_factal(x, k=10, n=500, seed=432):
     be logged, and `k` will be set to the number of samples.
 
     """
-    if len(x.shape) < 2:
+    x = ensure_2d(x)
+    if x.shape[1] < 2:
         return 1
     if n < x.shape[0]:
         key = random.PRNGKey(seed)
